@@ -21,6 +21,64 @@ func propC10(c *Ctx) {
 	c.ruleC10Undefined()
 	c.ruleC10MacroRemoved()
 	c.ruleC10CopyReset()
+	c.ruleC10CopyIdentity()
+}
+
+// ruleC10CopyIdentity: the copies that the expansion makes of one macro directive share file and coordinates. A
+// predicate of package directive that compares two directives by their coordinates therefore takes two copies of the
+// same macro directive for one directive; a decision taken on it outside that package makes `PASTE @m` twice differ
+// from the body written twice (F26: collectPathVariables refused GET+Path pasted under two URLs).
+func (c *Ctx) ruleC10CopyIdentity() {
+	r := c.R
+	r.Rule("C10-COPY-IDENTITY", "no function outside package directive decides by a predicate that compares two directives by their coordinates (copies made by PASTE have equal coordinates); directives are told apart by identity", 1)
+	preds := map[*types.Func]bool{}
+	for _, f := range c.libFns() {
+		if f.Pkg.Types.Name() != "directive" {
+			continue
+		}
+		sig := f.Obj.Type().(*types.Signature)
+		if sig.Results().Len() != 1 {
+			continue
+		}
+		if b, ok := sig.Results().At(0).Type().Underlying().(*types.Basic); !ok || b.Kind() != types.Bool {
+			continue
+		}
+		ast.Inspect(f.Decl.Body, func(n ast.Node) bool {
+			be, ok := n.(*ast.BinaryExpr)
+			if !ok || (be.Op != token.EQL && be.Op != token.NEQ) {
+				return true
+			}
+			fx, fy := fieldSel(f.Pkg, be.X), fieldSel(f.Pkg, be.Y)
+			if fx == nil || fx != fy {
+				return true
+			}
+			px, py := accessPath(f.Pkg, be.X), accessPath(f.Pkg, be.Y)
+			if px == "" || py == "" || px == py {
+				return true
+			}
+			// the compared field belongs to a coordinates structure (file / begin / end of a directive's position)
+			if strings.Contains(px, "oords") {
+				preds[f.Obj] = true
+			}
+			return true
+		})
+	}
+	var names []string
+	for p := range preds {
+		names = append(names, prog.FuncName(p))
+	}
+	sort.Strings(names)
+	r.Ok("C10-COPY-IDENTITY", "predicates", fmt.Sprintf("coordinate-equality predicates of package directive: %v", names), "")
+	for _, f := range c.libFns() {
+		if f.Pkg.Types.Name() == "directive" {
+			continue
+		}
+		for p := range preds {
+			for _, call := range callsIn(f.Pkg, f.Decl.Body, p) {
+				r.Bad("C10-COPY-IDENTITY", f.Name()+" | "+exprString(call.Fun), "two directives are taken for the same one when their coordinates are equal: the copies PASTE makes of one macro directive are", c.pos(call.Pos()))
+			}
+		}
+	}
 }
 
 // macroTableField finds the field of core.JApiCore of type map[string]*directive.Directive.
